@@ -5,7 +5,7 @@
    the translator read from hilbert_curve.rs / z_curve.rs (Gen/SfcGen.v). *)
 From Coupe Require Import Lib.Prelude Lib.SFloat Lib.Sorting Model.SfcPart Model.ZGeom Proofs.ZGeomProofs
   Proofs.SortingProofs Proofs.SfcProofs Proofs.ZCurveProofs Proofs.ZCheckProofs Proofs.ZOracleProofs Proofs.WqTermProofs Gen.SfcGen
-  Lib.Rayon Model.SfcSched Proofs.SfcSchedProofs.
+  Lib.Rayon Model.SfcSched Proofs.SfcSchedProofs Proofs.F64AddExact Proofs.SfcSchedExact.
 From Coq Require Import Floats.SpecFloat Sorting.Permutation Sorting.Sorted.
 Open Scope nat_scope.
 
@@ -116,8 +116,10 @@ Print Assumptions C09_hilbert_returns_partial.
    the indices are the true minimum/maximum whatever the schedule).
    For integer-valued non-negative weights with total <= 2^53 ([exact_sums])
    the result does not depend on the trees, given the per-point curve indices.
-   The premise [f64_add_exact_on_integers] is DESIGN §6's named assumption
-   "f64 + exact on integers < 2^53" (not proved from SpecFloat here). *)
+   The premise [f64_add_exact_on_integers] is PROVED below
+   (C09_f64_add_exact_on_integers); the statements with the premise are kept
+   (axiom-free, and for Properties/C06.v), the premise-free ones are the
+   [..._proved] theorems. *)
 Theorem C09_hilbert_sched_indep : f64_add_exact_on_integers ->
   forall ws, exact_sums ws ->
   forall ts1 ts2 tol maxo order fuel idx k p0,
@@ -125,6 +127,38 @@ Theorem C09_hilbert_sched_indep : f64_add_exact_on_integers ->
   = hilbert_partition_s ts2 tol maxo order fuel idx ws k p0.
 Proof. exact hilbert_sched_indep. Qed.
 Print Assumptions C09_hilbert_sched_indep.
+
+(* The premise is a theorem: binary64 addition (SpecFloat.SFadd 53 1024, what
+   the model executes) is exact on integers of magnitude <= 2^53 whose sum has
+   magnitude <= 2^53 -- proved through Flocq (Bplus_correct, integers below
+   2^53 are in the format), hence with the axioms of Coq's classical reals. *)
+Theorem C09_f64_add_exact : forall a b : Z,
+  (Z.abs a <= 2 ^ 53)%Z -> (Z.abs b <= 2 ^ 53)%Z -> (Z.abs (a + b) <= 2 ^ 53)%Z ->
+  f64_add (f64_of_Z a) (f64_of_Z b) = f64_of_Z (a + b).
+Proof. exact f64_add_exact. Qed.
+Print Assumptions C09_f64_add_exact.
+Theorem C09_f64_add_exact_on_integers : f64_add_exact_on_integers.
+Proof. exact f64_add_exact_on_integers_holds. Qed.
+
+(* schedule independence WITHOUT the premise *)
+Theorem C09_hilbert_sched_indep_proved : forall ws, exact_sums ws ->
+  forall ts1 ts2 tol maxo order fuel idx k p0,
+  hilbert_partition_s ts1 tol maxo order fuel idx ws k p0
+  = hilbert_partition_s ts2 tol maxo order fuel idx ws k p0.
+Proof. exact hilbert_sched_indep_proved. Qed.
+Print Assumptions C09_hilbert_sched_indep_proved.
+Theorem C09_hilbert_sched_is_sequential_proved : forall ts tol maxo order fuel idx zs k p0,
+  Forall (fun z => (0 <= z)%Z) zs -> (sumZ zs <= 2 ^ 53)%Z ->
+  hilbert_partition_s ts tol maxo order fuel idx (map oz zs) k p0
+  = hilbert_partition tol maxo order fuel idx (map oz zs) k p0.
+Proof. exact hilbert_partition_s_seq_proved. Qed.
+Theorem C09_histogram_sched_indep_proved : forall t positions n pts zs,
+  Forall (fun z => (0 <= z)%Z) zs -> (sumZ zs <= 2 ^ 53)%Z ->
+  part_weights_sched t positions n pts (map oz zs)
+  = part_weights_of positions pts (map oz zs) (repeat fzero n).
+Proof. exact part_weights_sched_seq_proved. Qed.
+Print Assumptions C09_hilbert_sched_is_sequential_proved.
+Print Assumptions C09_histogram_sched_indep_proved.
 
 (* ... and equals the sequential model the correspondence run executes *)
 Theorem C09_hilbert_sched_is_sequential : f64_add_exact_on_integers ->
